@@ -1629,6 +1629,7 @@ pub fn run_case(case: &Case, opts: &RunOpts) -> Outcome {
         root_stage: String::new(),
         phase: 0,
         final_stage: false,
+        panic_case: case_has_panic(&case),
     };
     let cfg = rt::Config {
         max_steps: opts.max_steps,
